@@ -14,7 +14,8 @@ Import ListNotations.
 Inductive case :=
 | KTx (tbl : list string) (steps : list (N * N)) (replies : list N) (dead : bool)
 (* the same shape for an EXECUTOR-level scenario: every step (0 or 1, i) is the command tbl[i] executed
-   on one CommandExecutor (whoever "sends" it), (2, ms) lets ms milliseconds of virtual time pass *)
+   on one CommandExecutor (whoever "sends" it), (2, ms) or (3, ms) lets ms milliseconds of virtual time pass (3: the clock then reaches the executor
+   through update_time_readonly instead of set_time; the model does not tell the two apart) *)
 | KXTx (tbl : list string) (steps : list (N * N)) (replies : list N) (dead : bool).
 
 Definition G : cfg := mk_cfg 60 2 1048576.
@@ -27,7 +28,7 @@ Fixpoint go (t : list bytes) (clock : N) (s : mstate) (ka kb : mconn) (steps : l
   match steps, replies with
   | [], [] => true
   | (w, h) :: steps', r :: replies' =>
-    if (w =? 2)%N then go t (clock + h)%N s ka kb steps' replies'
+    if ((w =? 2) || (w =? 3))%N then go t (clock + h)%N s ka kb steps' replies'
     else
       let who := (w =? 1)%N in
       let k := with_store (if who then ka else kb) (at_time s clock) in
@@ -50,7 +51,7 @@ Fixpoint xgo (t : list bytes) (clock : N) (x : mxstate) (steps : list (N * N)) (
   match steps, replies with
   | [], [] => true
   | (w, h) :: steps', r :: replies' =>
-    if (w =? 2)%N then xgo t (clock + h)%N x steps' replies'
+    if ((w =? 2) || (w =? 3))%N then xgo t (clock + h)%N x steps' replies'
     else
       match frame_cmd (nth (N.to_nat h) t []) with
       | None => false
